@@ -229,7 +229,7 @@ class CppFacts:
 
 # ---- body normalisation ------------------------------------------------------------------------
 _COMMENT = re.compile(r"//[^\n]*|/\*.*?\*/", re.S)
-_TOKEN = re.compile(r"[A-Za-z_][A-Za-z_0-9]*|\d+[uUlL]*|0x[0-9a-fA-F]+[uUlL]*|::|->|<<=|>>=|<<|>>|<=|>=|==|!=|&&|\|\||[-+*/%&|^~!<>=?:;,.(){}\[\]]|\"(?:[^\"\\]|\\.)*\"|'(?:[^'\\]|\\.)*'")
+_TOKEN = re.compile(r"[A-Za-z_][A-Za-z_0-9]*|0[xX][0-9a-fA-F]+[uUlL]*|\d+[uUlL]*|::|->|<<=|>>=|<<|>>|<=|>=|==|!=|&&|\|\||[-+*/%&|^~!<>=?:;,.(){}\[\]]|\"(?:[^\"\\]|\\.)*\"|'(?:[^'\\]|\\.)*'")
 
 
 def tokens(text):
